@@ -1,6 +1,6 @@
 (** C01 — the returned upper bound is backed by a complete, checkable dual certificate.
     Property theorems only; proofs live in Proofs/C01Layout.v, C01Gram.v, C01Identity.v,
-    C01Refuted.v, PSDLemmas.v.  Models: Model/Cvxpy.v (emit, recover, assign), Model/Cert.v
+    C01Refuted.v (regression for the formula used before the repair of F-C01a), PSDLemmas.v.  Models: Model/Cvxpy.v (emit, recover, assign), Model/Cert.v
     (reconstruct); solver assumption: Spec/KKT.v ([kkt_dual] = shapes + [stationary]). *)
 From Coq Require Import List QArith Reals Qreals Lra.
 From PV Require Import Base.IPS Model.Dict Model.Terms Model.Sent Model.Cvxpy Model.Cert
@@ -11,15 +11,18 @@ Local Open Scope R_scope.
 
 (** For EVERY tracked list (any interleaving of scalar constraints and LMIs of any sizes) and every
     dual vector with one entry per solver constraint: _recover_dual_values returns
-    [residual; dual at the main row of item 0; ...; dual at the main row of item n-1] and its final
-    assertion holds; assign_dual_values gives item k the k-th of these; the main row of item k is its
-    own <=/==/>> row; consecutive main positions differ by 1 (scalar) or 1 + n*m (LMI), the rows in
-    between being exactly the n*m entry equalities of that LMI, row-major; nothing is left over. *)
+    [residual; dual at the main row of item 0; ...; dual at the main row of item n-1], its final assertion
+    holds, and entries_dual_variable_value of an LMI is the block of n*m duals that follows its main row,
+    reshaped row-major (nothing for a scalar constraint); assign_dual_values gives item k the k-th main dual;
+    the main row of item k is its own <=/==/>> row; consecutive main positions differ by 1 (scalar) or 1 + n*m
+    (LMI), the rows in between being exactly the n*m entry equalities of that LMI; nothing is left over. *)
 Theorem C01_layout :
   forall (tracked : sent) (temp : list dval),
     length temp = length (emit tracked) ->
     let exposed_duals := map (fun k => nth (main_pos tracked k) temp dnone) (seq 0 (length tracked)) in
-    recover tracked temp = (nth 0 temp dnone :: exposed_duals, nth 0 temp dnone, S (length tracked))
+    let exposed_entries :=
+      map (fun k => entries_of_item temp (main_pos tracked k) (nth k tracked (SC [] Ineq))) (seq 0 (length tracked)) in
+    recover tracked temp = (nth 0 temp dnone :: exposed_duals, nth 0 temp dnone, S (length tracked), exposed_entries)
     /\ length (nth 0 temp dnone :: exposed_duals) = S (length tracked)
     /\ assign tracked (nth 0 temp dnone :: exposed_duals) = combine tracked exposed_duals
     /\ nth 0 (emit tracked) (RLe []) = RGram
@@ -32,30 +35,58 @@ Theorem C01_layout :
     /\ main_pos tracked (length tracked) = length (emit tracked).
 Proof. exact layout. Qed.
 
-(** Under the solver assumption (the Lagrangian of the emitted problem is constant = tau on
-    {G symmetric} x F x {M_k symmetric}), for every declared model whose LMIs are symmetric as written:
-    the multipliers exposed by assign o recover satisfy
-      objective - tau = sum lambda_c e_c - <residual,G> - sum_k <S_k, E_k(G,F)>   for ALL symmetric G, all F;
+(** when every tracked object is sent once, each position shows its own duals (objects sent several times show,
+    at every occurrence, the values of their LAST occurrence: Model.Cvxpy.by_object) *)
+Theorem C01_objects_sent_once :
+  forall (A : Type) (ids : list nat) (vals : list A) (d : A),
+    NoDup ids -> length ids = length vals -> by_object ids vals d = vals.
+Proof. exact @by_object_nodup. Qed.
+
+(** HEADLINE.  Under the solver assumption (the Lagrangian of the emitted problem is constant = tau on
+    {G symmetric} x F x {M_k symmetric}), for EVERY declared model - LMIs symmetric as written or not - whose
+    objects are each sent once: what the objects show after assign o recover satisfies
+      objective - tau = sum lambda_c e_c - <residual,G> - sum_k sum_ij u_kij e_kij   for ALL symmetric G, all F
+    (u_k = entries_dual_variable_value, the multipliers of the entry correspondences of the k-th LMI);
     check_feasibility's reconstruction returns exactly tau; and the pruned symmetrised dictionary has no
     non-constant key left. *)
-Theorem C01_identity_sym :
-  forall (obj : edict) (tracked : sent) (temp : list dval) (tau : R),
+Theorem C01_identity :
+  forall (obj : edict) (tracked : sent) (ids : list nat) (temp : list dval) (tau : R),
     wf_edict obj -> wf_sent tracked ->
-    all_lmis_symmetric tracked = true ->
+    NoDup ids -> length ids = length tracked ->
     kkt_dual obj (emit tracked) temp tau ->
-    let '(a, res, fd, t) := certificate obj tracked temp in
+    let '(a, res, fd, t) := certificate obj tracked ids temp in
     certificate_identity obj a (res_matrix res) tau
     /\ Q2R t = tau
     /\ (forall k v, In (k, v) fd -> k = K1).
-Proof. exact identity_sym. Qed.
+Proof. exact identity. Qed.
 
-(** identity + lambda >= 0 on inequalities + residual and S_k finite sums of rank-one matrices
-    => objective <= tau at every feasible point (G PSD, every scalar constraint holds, every LMI matrix PSD). *)
+Theorem C01_identity_proj :
+  forall (obj : edict) (tracked : sent) (ids : list nat) (temp : list dval) (tau : R),
+    wf_edict obj -> wf_sent tracked -> NoDup ids -> length ids = length tracked ->
+    kkt_dual obj (emit tracked) temp tau ->
+    certificate_identity obj (fst (exposed tracked ids temp)) (res_matrix (snd (exposed tracked ids temp))) tau
+    /\ Q2R (snd (certificate obj tracked ids temp)) = tau.
+Proof. exact identity_proj. Qed.
+
+(** stationarity in the matrix variables: the dual matrix S_k = eval_dual() of every LMI is the symmetric part of
+    its entry multipliers u_k (so <u_k, E> = <S_k, E> whenever E is symmetric, e.g. at every feasible point) *)
+Theorem C01_dual_matrix_is_sym_part :
+  forall (obj : edict) (tracked : sent) (ids : list nat) (temp : list dval) (tau : R),
+    NoDup ids -> length ids = length tracked ->
+    length temp = length (emit tracked) ->
+    stationary obj (emit tracked) temp tau ->
+    Forall sym_ok (fst (exposed tracked ids temp)).
+Proof. exact dual_matrix_is_sym_part. Qed.
+
+(** identity + lambda >= 0 on inequalities + residual and the dual matrices S_k finite sums of rank-one matrices
+    + S_k = symmetric part of u_k  => objective <= tau at every feasible point (G symmetric PSD, every scalar
+    constraint holds, every LMI matrix symmetric PSD). *)
 Theorem C01_weak_duality :
-  forall (np : nat) (obj : edict) (tracked : sent) (duals : list dval) (res : list (list Q)) (tau : R),
-    length duals = length tracked ->
-    certificate_identity obj (combine tracked duals) res tau ->
-    dual_feasible (combine tracked duals) ->
+  forall (np : nat) (obj : edict) (tracked : sent) (duals : list dval) (entries : list (option (list (list Q))))
+         (res : list (list Q)) (tau : R),
+    length duals = length tracked -> length entries = length tracked ->
+    certificate_identity obj (combine (combine tracked duals) entries) res tau ->
+    dual_feasible (combine (combine tracked duals) entries) ->
     rank1sum res np ->
     forall G F, feasible np tracked G F -> evalGF G F obj <= tau.
 Proof. exact weak_duality. Qed.
@@ -69,63 +100,85 @@ Theorem C01_gram_is_psd :
   forall (E : ips) (rho : nat -> E) n, psd_qf n (fun i j => inner (rho i) (rho j)).
 Proof. exact @gram_psd. Qed.
 
-(** KNOWN FINDING F-C01a: an LMI that is not symmetric as written.  There is a declared model, a dual
-    satisfying the solver assumption AND dual feasibility, and a feasible point whose objective value is
-    strictly above the number check_feasibility returns. *)
-Theorem C01_identity_asym_refuted :
-  exists (np : nat) (obj : edict) (tracked : sent) (temp : list dval) (tau : R)
+(** REGRESSION for the repaired finding F-C01a: the formula check_feasibility used BEFORE commit bd99691 (the LMI
+    expressions combined with eval_dual() instead of the entry multipliers; Model.Cert.old_reconstruct) is refuted
+    on an LMI that is not symmetric as written - a KKT, dual-feasible dual and a feasible point whose objective
+    value is strictly above what the old formula returns - while the CURRENT formula returns tau on that very
+    instance (which meets every hypothesis of C01_identity: the asymmetric non-vacuity example). *)
+Theorem C01_old_formula_refuted :
+  exists (np : nat) (obj : edict) (tracked : sent) (ids : list nat) (temp : list dval) (tau : R)
          (G : nat -> nat -> R) (F : nat -> R),
-    wf_edict obj /\ wf_sent tracked
+    wf_edict obj /\ wf_sent tracked /\ NoDup ids /\ length ids = length tracked
     /\ all_lmis_symmetric tracked = false
     /\ kkt_dual obj (emit tracked) temp tau
-    /\ (let '(a, res) := exposed tracked temp in dual_feasible a /\ rank1sum (res_matrix res) np)
+    /\ (let '(a, res) := exposed tracked ids temp in dual_feasible a /\ rank1sum (res_matrix res) np)
     /\ feasible np tracked G F
-    /\ Q2R (snd (certificate obj tracked temp)) < evalGF G F obj.
-Proof. exact identity_asym_refuted. Qed.
+    /\ (let '(a, res) := exposed tracked ids temp in
+        Q2R (old_reconstruct obj (res_matrix res) a) < evalGF G F obj
+        /\ Q2R (reconstruct obj (res_matrix res) a) = tau).
+Proof. exact old_formula_refuted. Qed.
 
-(** with the optimal dual of the same model the reconstruction returns 2/5 while the dual value and the
-    primal optimum are 9/10: the numbers observed on the real code (0.40 < 0.90) *)
+(** the numbers observed on the real code for [[|x1-xs|^2, t],[s+1, 1]], metric t: 0.40 before the repair, 0.90 =
+    primal = dual after it *)
 Theorem C01_asym_observed_value :
   kkt_dual w_obj (emit w_sent) (w_duals (5 # 9) (9 # 20)) (9 / 10)
-  /\ Q2R (snd (certificate w_obj w_sent (w_duals (5 # 9) (9 # 20)))) = 2 / 5.
+  /\ Q2R (old_value (w_duals (5 # 9) (9 # 20))) = 2 / 5
+  /\ Q2R (new_value (w_duals (5 # 9) (9 # 20))) = 9 / 10.
 Proof. exact asym_observed_value. Qed.
 
-(** the property under the decidable guard that excludes exactly that trigger *)
-Theorem C01_identity_partial :
-  forall (obj : edict) (tracked : sent) (temp : list dval) (tau : R),
-    all_lmis_symmetric tracked = true ->
-    wf_edict obj -> wf_sent tracked ->
-    kkt_dual obj (emit tracked) temp tau ->
-    certificate_identity obj (fst (exposed tracked temp)) (res_matrix (snd (exposed tracked temp))) tau
-    /\ Q2R (snd (certificate obj tracked temp)) = tau.
-Proof. exact identity_partial. Qed.
-
-(** Non-vacuity: a model with a symmetric 2x2 LMI, a rational dual satisfying the solver assumption and
-    dual feasibility, a feasible point; the reconstruction returns the constant 481/400 and the
+(** Non-vacuity, symmetric LMI: a model with a symmetric 2x2 LMI, a rational dual satisfying the solver assumption
+    and dual feasibility, a feasible point; the reconstruction returns the constant 481/400 and the
     feasible objective value 9/10 is below it. *)
 Example C01_example :
-  wf_edict w_obj /\ wf_sent s_sent
+  wf_edict w_obj /\ wf_sent s_sent /\ NoDup w_ids /\ length w_ids = length s_sent
   /\ all_lmis_symmetric s_sent = true
   /\ kkt_dual w_obj (emit s_sent) s_duals (481 / 400)
-  /\ (snd (certificate w_obj s_sent s_duals) == 481 # 400)%Q
-  /\ (let '(a, res) := exposed s_sent s_duals in dual_feasible a /\ rank1sum (res_matrix res) 1)
+  /\ (snd (certificate w_obj s_sent w_ids s_duals) == 481 # 400)%Q
+  /\ (let '(a, res) := exposed s_sent w_ids s_duals in dual_feasible a /\ rank1sum (res_matrix res) 1)
   /\ feasible 1 s_sent w_G s_F /\ evalGF w_G s_F w_obj = 9 / 10.
 Proof.
-  split; [apply s_wf|]. split; [apply s_wf|]. split; [apply s_symmetric|]. split; [apply s_kkt|].
+  split; [apply s_wf|]. split; [apply s_wf|]. split; [apply w_ids_ok|]. split; [apply w_ids_ok|].
+  split; [apply s_symmetric|]. split; [apply s_kkt|].
   split; [apply s_reconstruct|]. split; [apply s_dual_feasible|]. exact s_feasible.
 Qed.
 
-(** layout on a concrete interleaving: scalar, 2x2 LMI, scalar, 1x1 LMI, scalar -> positions 1,2,7,8,10 of 11 *)
+(** Non-vacuity, LMI NOT symmetric as written: every hypothesis of C01_identity and C01_weak_duality is met by
+    [[<p,p>, t],[s + 1, 1]]; the reconstruction returns 481/400 = tau for the dual (a, u11) = (1/4, 1) and
+    9/10 = the optimum for the optimal dual. *)
+Example C01_example_asymmetric :
+  wf_edict w_obj /\ wf_sent w_sent /\ NoDup w_ids /\ length w_ids = length w_sent
+  /\ all_lmis_symmetric w_sent = false
+  /\ kkt_dual w_obj (emit w_sent) (w_duals (1 # 4) 1) (Q2R (1 # 4) * (81 / 100) + Q2R 1)
+  /\ (new_value (w_duals (1 # 4) 1) == 481 # 400)%Q
+  /\ (new_value (w_duals (5 # 9) (9 # 20)) == 9 # 10)%Q
+  /\ (let '(a, res) := exposed w_sent w_ids (w_duals (1 # 4) 1) in dual_feasible a /\ rank1sum (res_matrix res) 1)
+  /\ feasible 1 w_sent w_G w_F /\ evalGF w_G w_F w_obj = 9 / 10.
+Proof.
+  split; [apply w_wf|]. split; [apply w_wf|]. split; [apply w_ids_ok|]. split; [apply w_ids_ok|].
+  split; [apply w_not_symmetric|]. split; [apply w_kkt|]. split; [apply w_new_feasible_dual|].
+  split; [apply w_new_optimal_dual|]. split; [apply w_dual_feasible|]. exact w_feasible.
+Qed.
+
+(** layout on a concrete interleaving: scalar, 2x2 LMI, scalar, 1x1 LMI, scalar -> positions 1,2,7,8,10 of 11;
+    the same constraint object sent twice shows the dual of its last occurrence at both positions *)
 Example C01_layout_example :
   let l := [SC [] Ineq; LMI [[[]; []]; [[]; []]]; SC [] Equ; LMI [[[]]]; SC [] Ineq] in
   map (main_pos l) (seq 0 5) = [1; 2; 7; 8; 10]%nat /\ length (emit l) = 11%nat.
 Proof. vm_compute. split; reflexivity. Qed.
 
+Example C01_duplicate_object_example :
+  map (fun p => snd (fst p)) (fst (exposed [SC [] Ineq; SC [(K1, 1%Q)] Ineq; SC [(K1, 1%Q)] Ineq] [0; 1; 1]%nat
+                                         [VM []; VS 5%Q; VS 1%Q; VS 2%Q]))
+  = [VS 5%Q; VS 2%Q; VS 2%Q].
+Proof. exact duplicate_shows_last. Qed.
+
 Print Assumptions C01_layout.
-Print Assumptions C01_identity_sym.
+Print Assumptions C01_objects_sent_once.
+Print Assumptions C01_identity.
+Print Assumptions C01_identity_proj.
+Print Assumptions C01_dual_matrix_is_sym_part.
 Print Assumptions C01_weak_duality.
 Print Assumptions C01_psd_pairing.
 Print Assumptions C01_gram_is_psd.
-Print Assumptions C01_identity_asym_refuted.
+Print Assumptions C01_old_formula_refuted.
 Print Assumptions C01_asym_observed_value.
-Print Assumptions C01_identity_partial.
